@@ -1,12 +1,14 @@
 package main
 
 // C06: GoLite targets (docs/GOLITE_NOTES.md): expiry and authentic timestamp.
+// Theorems: coq/props/C06_Generated.v (proofs coq/theories/C06_GenProofs.v); table in docs/audit/C06.md, section GoLite.
 func init() {
 	const v = ".../verifier"
 	Register("C06", []Target{
 		{Pkg: "time", Func: "Now", Oracle: true},
 		{Pkg: "crypto/x509", Type: "Certificate", Opaque: true, Views: map[string]string{
 			"NotBefore": "Z", "NotAfter": "Z", "Subject": "string", "Subject.String()": "string"}},
+		// only feeds error messages: needed so that the message arguments are seen to be total
 		{Pkg: "time", Func: "Time.Format", Oracle: true},
 		{Pkg: v, Func: "verifyExpiry"},
 		{Pkg: v, Func: "isTSATrustStoreInPolicy"},
@@ -24,8 +26,10 @@ func init() {
 		{Pkg: "github.com/notaryproject/tspclient-go", Func: "(*Timestamp).BoundedAfter"},
 		{Pkg: "github.com/notaryproject/tspclient-go", Func: "(*Timestamp).Format", Oracle: true},
 		{Pkg: "github.com/notaryproject/notation-core-go/x509", Func: "ValidateTimestampingCertChain", Oracle: true},
-		// not opaque: x509.VerifyOptions needs a zero value for its *CertPool fields
-
+		// x509.CertPool is NOT declared opaque: the literal x509.VerifyOptions{CurrentTime, Roots} needs a zero
+		// value for the other *CertPool field (Intermediates), which an opaque pointer type does not have.
+		// AddCert is called for its effect on the pool; an oracle is pure, so the translation drops the effect:
+		// the pool handed to SignedToken.Verify is always NewCertPool() (limitation, docs/audit/C06.md).
 		{Pkg: "crypto/x509", Func: "NewCertPool", Oracle: true},
 		{Pkg: "crypto/x509", Func: "(*CertPool).AddCert", Oracle: true},
 		{Pkg: ".../internal/container", Func: "New"},
